@@ -430,10 +430,13 @@ class Verifier:
             pnames = [a.arg for a in node.args.args]
             body = node.body
         if by_name:
-            missing = [n for n in pnames if n not in env]
+            # a parameter with a default (always None) names an optional local variable of the code
+            ndef = len(node.args.defaults)
+            optional = set(pnames[len(pnames) - ndef:]) if ndef else set()
+            missing = [n for n in pnames if n not in env and n not in optional]
             if missing:
                 raise Unsupported("clause %s: unknown names %s" % (fn.__name__, missing))
-            local = {n: env[n] for n in pnames}
+            local = {n: env.get(n) for n in pnames}
         else:
             if len(args) != len(pnames):
                 raise Unsupported("spec function %s arity" % fn.__name__)
@@ -474,7 +477,17 @@ class Verifier:
                     if r is not None or any(isinstance(x, ast.Return) for x in (s.body if c else s.orelse)):
                         return r
                     continue
-                raise Unsupported("spec: if on symbolic condition (use ite / implies)")
+                # symbolic condition: decided by the path condition if possible, else both branches -> ite
+                if ip.must(st, c.term):
+                    r = self.exec_spec_body(st, s.body + [x for x in body[body.index(s) + 1:]])
+                    return r
+                if ip.must(st, tm.Not(c.term)):
+                    r = self.exec_spec_body(st, s.orelse + [x for x in body[body.index(s) + 1:]])
+                    return r
+                rest = [x for x in body[body.index(s) + 1:]]
+                a = self.exec_spec_body(st, s.body + rest)
+                b = self.exec_spec_body(st, s.orelse + rest)
+                return L.ite_value(c.term, a, b)
             raise Unsupported("spec statement %s" % type(s).__name__)
         return None
 
@@ -672,37 +685,38 @@ class Verifier:
         outcomes = []
         # exceptional outcomes
         for path, entry in cls.raises.items():
-            s2 = st.fork()
+            s2_0 = st.fork()
             if not cls.pure:
-                self.havoc_ghost(s2, cls)
-            self.havoc_self(s2, cls, bound)
+                self.havoc_ghost(s2_0, cls)
             ecls = self.resolve_class(path)
-            argvals = []
-            for k, sp in enumerate(entry.args):
-                (s2, v), = list(self.make(s2, sp, "exc.arg%d" % k))
-                argvals.append(v)
-            exc = I.make_exc(s2, ecls, *argvals)
-            for k, sp in entry.fields.items():
-                (s2, v), = list(self.make(s2, sp, "exc." + k))
-                s2.fields(exc, True)[k] = v
-            env2 = dict(bound, exc=exc, g=self.ghost_view(s2), old=old)
-            if entry.when is not None:
-                s2.assume(self.eval_clause(s2, entry.when, env2))
-            for e in entry.post:
-                s2.assume(self.eval_clause(s2, e, env2))
-            # (declared outcomes are kept without a solver call: an outcome excluded by the path condition
-            #  only yields obligations that hold vacuously)
-            ip.count_path()
-            s2.trace.append("  raises %s" % ecls.name)
-            outcomes.append((s2, Raise(exc)))
+            for s2 in self.havoc_self(s2_0, cls, bound):
+                argvals = []
+                for k, sp in enumerate(entry.args):
+                    (s2, v), = list(self.make(s2, sp, "exc.arg%d" % k))
+                    argvals.append(v)
+                exc = I.make_exc(s2, ecls, *argvals)
+                for k, sp in entry.fields.items():
+                    (s2, v), = list(self.make(s2, sp, "exc." + k))
+                    s2.fields(exc, True)[k] = v
+                env2 = dict(bound, exc=exc, g=self.ghost_view(s2), old=old)
+                if entry.when is not None:
+                    s2.assume(self.eval_clause(s2, entry.when, env2))
+                for e in entry.post:
+                    s2.assume(self.eval_clause(s2, e, env2))
+                # (declared outcomes are kept without a solver call: an outcome excluded by the path condition
+                #  only yields obligations that hold vacuously)
+                ip.count_path()
+                s2.trace.append("  raises %s" % ecls.name)
+                outcomes.append((s2, Raise(exc)))
         # normal outcome
         if not cls.pure:
             self.havoc_ghost(st, cls)
-        self.havoc_self(st, cls, bound)
-        if cls.result is None:
-            results = [(st, None)]
-        else:
-            results = list(self.make(st, cls.result, "ret." + cls.qualname.split(".")[-1]))
+        results = []
+        for st_n in self.havoc_self(st, cls, bound):
+            if cls.result is None:
+                results.append((st_n, None))
+            else:
+                results.extend(self.make(st_n, cls.result, "ret." + cls.qualname.split(".")[-1]))
         for s3, res in results:
             env3 = dict(bound, result=res, g=self.ghost_view(s3), old=old)
             for e in cls.ensures:
@@ -718,12 +732,20 @@ class Verifier:
             st.ghost[name] = v
 
     def havoc_self(self, st, cls, bound):
+        """havoc the fields the callee may write; a ONEOF spec forks (returns the list of resulting states)"""
         if not cls.modifies_self:
-            return
+            return [st]
         self_obj = bound.get("self")
+        states = [st]
         for k, sp in cls.modifies_self.items():
-            (s, v), = list(self.make(st, sp, "self." + k))
-            st.fields(self_obj, True)[k] = v
+            nxt = []
+            for s0 in states:
+                made = list(self.make(s0, sp, "self." + k))
+                for s1, v in made:
+                    s1.fields(self_obj, True)[k] = v
+                    nxt.append(s1)
+            states = nxt
+        return states
 
     # ---------------------------------------------------------------- loops
     def loop_ordinal(self, func_node, loop_node):
@@ -1312,7 +1334,16 @@ class RecSpec:
     def __call__(self, ip, st, *args):
         xs = [to_term(L.int_of(a)) for a in args[:-1]]
         k = to_term(L.int_of(args[-1]))
-        return wrap_sort(self.term(st, xs, k))
+        depth = 1
+        if k.op == "int":
+            depth = max(1, min(k.val, 16))
+        elif not tm.free_bvars(k):
+            # a count that the path condition fixes to a small constant is unfolded completely
+            for c in range(0, 13):
+                if ip.must(st, tm.Eq(k, tm.Int(c))):
+                    depth = max(1, c)
+                    break
+        return wrap_sort(self.term(st, xs, k, depth))
 
 
 @spec_builtin("is_int")
